@@ -316,3 +316,50 @@ func verifH_C02_wrong_kind_in_progress() {
 	verifAssert(err != nil && doc == nil, "C02 wrong kind in progress: a reference to an object of another kind makes loading fail, also when that object is still being resolved")
 	verifReach("end")
 }
+
+//verif:harness id=C02 tier=quick,thorough witness=end bounds="a whole-file reference to a file whose whole content is itself a reference (A -> a.json = {$ref: b.json} -> b.json, or -> {$ref: b.json#/components/.../X}, or -> a file in a sub-directory that refers to its neighbour) for schemas / parameters / responses: after loading A is the object at the end of the chain"
+func verifH_C02_whole_file_chain() {
+	kind := verifChoose("kind", 3)
+	kinds := []string{"schemas", "parameters", "responses"}[kind]
+	leaf := []string{`{"type":"string","description":"leaf"}`, `{"name":"p","in":"query","description":"leaf","schema":{"type":"string"}}`, `{"description":"leaf"}`}[kind]
+	files := map[string]string{}
+	via := verifChoose("via", 3)
+	// known finding: a file whose whole content is a reference *with a fragment* is taken for the object itself
+	verifKnown("C02-whole-file-content-is-fragment-reference", via == 1)
+	switch via {
+	case 0:
+		files["/r/a.json"] = `{"$ref":"b.json"}`
+		files["/r/b.json"] = leaf
+	case 1:
+		files["/r/a.json"] = `{"$ref":"b.json#/components/` + kinds + `/X"}`
+		files["/r/b.json"] = `{"components":{"` + kinds + `":{"X":` + leaf + `}}}`
+	case 2:
+		files["/r/a.json"] = `{"$ref":"d/c.json"}`
+		files["/r/d/c.json"] = `{"$ref":"e.json"}`
+		files["/r/d/e.json"] = leaf
+		files["/r/e.json"] = `{"description":"decoy"}`
+	}
+	rootText := `{"openapi":"3.0.0","info":{"title":"t","version":"1"},"paths":{},"components":{"` + kinds + `":{"A":{"$ref":"a.json"}}}}`
+	doc, err := verifLoadFiles(rootText, files)
+	verifAssert(err == nil && doc != nil, "C02 whole-file chain: the document loads")
+	if err != nil || doc == nil {
+		return
+	}
+	desc := ""
+	switch kind {
+	case 0:
+		if r := doc.Components.Schemas["A"]; r != nil && r.Value != nil {
+			desc = r.Value.Description
+		}
+	case 1:
+		if r := doc.Components.Parameters["A"]; r != nil && r.Value != nil {
+			desc = r.Value.Description
+		}
+	case 2:
+		if r := doc.Components.Responses["A"]; r != nil && r.Value != nil && r.Value.Description != nil {
+			desc = *r.Value.Description
+		}
+	}
+	verifAssert(desc == "leaf", "C02 whole-file chain: the reference resolves to the object at the end of the chain of files")
+	verifReach("end")
+}
